@@ -13,6 +13,7 @@ mod dialect;
 mod indep;
 mod parseprops;
 mod roundtrip;
+#[cfg(feature = "with-serde")]
 mod serdeprops;
 mod enc;
 mod gentext;
@@ -64,6 +65,7 @@ fn main() {
         "C11" => parseprops::run_c11(tier, seed, &mut out),
         "C17" => parseprops::run_c17(tier, seed, &mut out),
         "C19" => parseprops::run_c19(tier, seed, &mut out),
+        #[cfg(feature = "with-serde")]
         "C04" | "C14" | "C18" => serdeprops::run(id, tier, seed, &mut out),
         "C09" => macroprops::run(tier, seed, &mut out),
         "C16" => c16::run(tier, seed, &mut out),
